@@ -508,6 +508,8 @@ UnitClauses(e) ==
           Cl(P \o ".symbol", kn, e.sym.cp = du.sym_cp /\ e.display.cp = du.sym_cp),
           Cl(P \o ".name", kn, e.name.cp = du.name_cp),
           Cl(P \o ".prefix", kn, e.pfx = du.pfx),
+          \* "their prefix exponents": the exponent that the unit's prefix reports is the SI brochure's
+          Cl(P \o ".prefix_exponent", kn /\ Has(e, "pfx_exp") /\ e.pfx # "-" /\ SIKnown(e.pfx), e.pfx_exp = SIExp(e.pfx)),
           Cl(P \o ".scale", kn /\ isref /\ du.def.kind # "none", ScaleMatches(e, DScale(T, e.id), du.term)),
           Cl(P \o ".ref_scale_one", kn /\ isref /\ du.def.kind = "ref", XEq(e.scale, XOne) /\ e.is_ref),
           Cl("C11.variant_and_const_names", kn /\ Decl.types[T].crate = "gen" /\ Alphabetic(du.w_cp),
